@@ -12,6 +12,11 @@ E1 (bounded exhaustive enumeration against mc/ref_c14.py, which shares no code w
              variants for strict u) against the *geometric* occurrences; every (w, perm):
              perm <= perm(w)  <=>  some pin word of perm is found in w by pinword_contains
   interleave two live pinword_occurrences generators advanced alternately
+  history    BFS over histories that interleave the direct entry points (pinword_to_perm, quadrant,
+             factor_pinword, occurrences/contains, sp_to_m/m_to_sp, pinwords_of_length) with
+             first-time table builds on a freshly re-executed library; all built tables re-checked
+             in full after every step; hidden module/class level state is part of the state; a slice
+             re-run in fresh interpreters
   selftest   the reference against itself (encode o decode = id, fast tables = naive definitions,
              Lemma 3.10 on the reference geometry, paper variant with gap = geometry); a failure
              there is a harness error, never a verdict
@@ -704,6 +709,344 @@ def shard_interleave(shard):
 
 
 # --------------------------------------------------------------------------------------------
+# history: direct entry points interleaved with first-time table builds (E2-style BFS)
+# --------------------------------------------------------------------------------------------
+# A state is reached by a history of operations executed on a FRESH library: before every history
+# the two modules are re-executed (importlib.reload), so every lru cache, every module/class level
+# container, every default argument is new.  After every operation its own answer is compared with
+# the reference AND every table built so far is fetched again and compared in full.  States are
+# merged by a canonical form that contains the complete contents of the built tables, the sizes of
+# all lru caches of PinWords and every piece of hidden mutable state reachable from the two
+# modules (module globals, instances living at module/class level, class attributes, default
+# arguments, closure cells).
+
+HIST_MODS = ("permuta.permutils.pinword_util", "permuta.permutils.pin_words")
+TABLE_KINDS = ("w2p", "p2w", "strict")
+IMPLIED = {"w2p": ("w2p",), "p2w": ("w2p", "p2w"), "strict": ("w2p", "p2w", "strict"),
+           "basis": ("w2p", "p2w")}
+
+DEC_WORDS = ["", "3", "1U", "24L", "3R1D"]
+DIRECT_OPS = ([["decode", w] for w in DEC_WORDS]
+              + [["word", "2RU4L"],
+                 ["pair", "1L3D", "1L3"], ["pair", "244U", "4U"],
+                 ["translate", "2UL"], ["translate", "DRD"],
+                 ["enum", 2],
+                 ["interleave", "111", "11", "1"]])
+
+
+def table_ops(lengths):
+    return [[k, l] for l in lengths for k in ("w2p", "p2w", "strict", "basis")]
+
+
+def fresh_library():
+    """Re-execute the two modules.  Returns False (after clearing what can be cleared) if that is
+    not possible."""
+    import importlib
+    import sys
+    try:
+        for name in HIST_MODS:
+            mod = sys.modules.get(name)
+            if mod is None:
+                importlib.import_module(name)
+            else:
+                importlib.reload(mod)
+        return True
+    except Exception:  # noqa
+        clear_table_caches(_PW())
+        return False
+
+
+def _freeze(x, depth=0, seen=None):
+    import collections
+    from fractions import Fraction
+    if isinstance(x, (bool, int, float, str, bytes)) or x is None:
+        return x
+    if isinstance(x, Fraction):
+        return ("F", x.numerator, x.denominator)
+    if depth > 8:
+        return "<deep>"
+    seen = seen or ()
+    if id(x) in seen:
+        return "<cycle>"
+    seen = seen + (id(x),)
+    if isinstance(x, dict):
+        return ("dict", type(x).__name__,
+                tuple(sorted(((repr(_freeze(k, depth + 1, seen)), _freeze(v, depth + 1, seen))
+                              for k, v in x.items()), key=repr)))
+    if isinstance(x, (list, tuple, collections.deque)):
+        return (type(x).__name__,) + tuple(_freeze(v, depth + 1, seen) for v in x)
+    if isinstance(x, (set, frozenset)):
+        return ("set",) + tuple(sorted(repr(_freeze(v, depth + 1, seen)) for v in x))
+    if type(x).__module__ in HIST_MODS and hasattr(x, "__dict__"):
+        return ("obj", type(x).__name__, _freeze(vars(x), depth + 1, seen))
+    if callable(x):
+        return ("callable", getattr(x, "__qualname__", type(x).__name__))
+    return ("other", type(x).__name__)
+
+
+def _func_state(f):
+    """Mutable state a function can carry between calls."""
+    out = []
+    inner = f
+    for _ in range(4):
+        inner = getattr(inner, "__func__", inner)
+        ci = getattr(inner, "cache_info", None)
+        if ci is not None:
+            try:
+                out.append(("lru", ci().currsize))
+            except Exception:  # noqa
+                pass
+        if hasattr(inner, "__wrapped__"):
+            inner = inner.__wrapped__
+        else:
+            break
+    inner = getattr(inner, "__func__", inner)
+    for attr in ("__defaults__", "__kwdefaults__"):
+        v = getattr(inner, attr, None)
+        if v:
+            out.append((attr, _freeze(v)))
+    for cell in getattr(inner, "__closure__", None) or ():
+        try:
+            out.append(("cell", _freeze(cell.cell_contents)))
+        except ValueError:
+            out.append(("cell", "<empty>"))
+    if getattr(inner, "__dict__", None):
+        out.append(("attrs", _freeze(dict(inner.__dict__))))
+    return tuple(out)
+
+
+def hidden_state():
+    import collections
+    import sys
+    import types
+    containers = (list, dict, set, collections.deque, bytearray)
+    out = []
+
+    def look(owner, k, v, modname):
+        if isinstance(v, containers):
+            out.append((owner, k, _freeze(v)))
+        elif isinstance(v, (types.FunctionType, staticmethod, classmethod)) or hasattr(v, "cache_info"):
+            if getattr(getattr(v, "__func__", v), "__module__", modname) == modname:
+                st = _func_state(v)
+                if st:
+                    out.append((owner, k, st))
+        elif isinstance(v, type):
+            if v.__module__ == modname:
+                for ck, cv in sorted(vars(v).items()):
+                    if not (ck.startswith("__") and ck.endswith("__")):
+                        look(owner + "." + v.__name__, ck, cv, modname)
+        elif type(v).__module__ in HIST_MODS and hasattr(v, "__dict__"):
+            out.append((owner, k, _freeze(v)))
+
+    for name in HIST_MODS:
+        mod = sys.modules.get(name)
+        if mod is None:
+            continue
+        for k, v in sorted(vars(mod).items()):
+            if not (k.startswith("__") and k.endswith("__")):
+                look(name, k, v, name)
+    return tuple(out)
+
+
+def _fetch_table(PW, kind, l):
+    """(comparable contents, full contents for the canonical state)."""
+    if kind == "w2p":
+        r = PW.pinword_to_perm_mapping(l)
+        got = {w: tuple(p) for w, p in r.items()}
+        return got, (type(r).__name__, tuple(sorted(got.items())))
+    r = PW.perm_to_pinword_mapping(l) if kind == "p2w" else PW.perm_to_strict_pinword_mapping(l)
+    allk = {tuple(p): tuple(sorted(ws)) for p, ws in r.items()}
+    got = {p: set(ws) for p, ws in allk.items() if ws}
+    if kind == "strict" and l == 0:
+        got = {}
+    return got, (type(r).__name__, tuple(sorted(allk.items())))
+
+
+def _check_table(PW, kind, l):
+    """None or a detail dict; second value: contents for the canonical state."""
+    ref = ref_tables_cached(l)[TABLE_KINDS.index(kind)]
+    try:
+        got, full = _fetch_table(PW, kind, l)
+    except Exception as exc:  # noqa
+        return {"table": [kind, l], "exception": repr(exc)}, None
+    if got != ref:
+        return dict(_diff_dict(ref, got), table=[kind, l]), full
+    return None, full
+
+
+def _silent_known(part, sub, sig, case, detail):
+    pass
+
+
+def _do_direct(PW, op):
+    """Run one direct operation through the ordinary per-case checkers; None or a detail dict."""
+    tmp = Partial()
+    kind = op[0]
+    if kind == "decode":
+        w = op[1]
+        try:
+            got = tuple(PW.pinword_to_perm(w))
+        except BaseException as exc:  # noqa
+            if isinstance(exc, (KeyboardInterrupt, SystemExit)):
+                raise
+            return {"exception": repr(exc)}
+        if got != F.perm_of(w):
+            return {"expected": F.perm_of(w), "got": got}
+        return None
+    if kind == "word":
+        check_word(tmp, PW, op[1])
+    elif kind == "pair":
+        w, u = op[1], op[2]
+        check_pair(tmp, PW, w, u, F.geometric_occurrences(w, u), F.letter_occurrences(w, u, False),
+                   _silent_known)
+    elif kind == "translate":
+        (check_sp if F.is_strict(op[1]) else check_m)(tmp, PW, op[1])
+    elif kind == "enum":
+        check_enum(tmp, op[1])
+    elif kind == "interleave":
+        check_interleave(tmp, PW, op[1], op[2], op[3])
+    else:
+        raise ValueError(op)
+    if tmp.viols:
+        v = tmp.viols[0]
+        return {"sub": v["sub"], "case": v["case"], "detail": v["detail"]}
+    return None
+
+
+def run_history(hist, reset=True):
+    """Execute the history on a fresh library.  Returns (digest of the canonical state,
+    None | (index of the first failing step, detail))."""
+    import hashlib
+    reloaded = fresh_library() if reset else True
+    PW, Perm = _PW(), _Perm()
+    built = []
+    fail = None
+    fulls = {}
+    for k, op in enumerate(hist):
+        op = list(op)
+        bad = None
+        if op[0] in IMPLIED:
+            kind, l = op
+            try:
+                if kind == "basis":
+                    perms_l = R.perms(l)
+                    basis = [perms_l[0], perms_l[-1]]
+                    p2w_ref = ref_tables_cached(l)[1]
+                    exp = sorted(w for p in basis for w in p2w_ref.get(p, ()))
+                    got = sorted(PW.pinwords_for_basis([Perm(p) for p in basis]))
+                    if got != exp:
+                        bad = {"basis": basis, "n_expected": len(exp), "n_got": len(got),
+                               "missing": sorted(set(exp) - set(got))[:4],
+                               "extra": sorted(set(got) - set(exp))[:4]}
+                else:
+                    bad, _ = _check_table(PW, kind, l)
+            except Exception as exc:  # noqa
+                bad = {"exception": repr(exc)}
+            for t in IMPLIED[kind]:
+                if (t, l) not in built:
+                    built.append((t, l))
+        else:
+            bad = _do_direct(PW, op)
+        # every table built so far, in full
+        fulls = {}
+        for (t, l) in sorted(built):
+            b2, full = _check_table(PW, t, l)
+            fulls[(t, l)] = full
+            if bad is None and b2 is not None:
+                bad = dict(b2, after_step=True)
+        if bad is not None and fail is None:
+            fail = (k, bad)
+    canon = (tuple(sorted(fulls.items())), hidden_state(), reloaded)
+    return hashlib.sha1(repr(canon).encode()).hexdigest(), fail
+
+
+def shard_history(shard):
+    """shard = list of (history, op or None): evaluate history + [op]."""
+    part = Partial()
+    out = []
+    for hist, op in shard:
+        nh = list(hist) + ([op] if op is not None else [])
+        canon, fail = run_history(nh)
+        bad = fail is not None
+        if bad and fail[0] == len(nh) - 1:
+            part.violation("history", {"history": nh},
+                           dict(fail[1], failed_step=[fail[0], nh[fail[0]]]))
+        part.add(1, 1 if (any(o[0] in IMPLIED for o in nh) and any(o[0] not in IMPLIED for o in nh)) else 0)
+        part.bump("history_operations_executed", len(nh))
+        out.append((canon, bad))
+    return part, out
+
+
+def explore_histories(ctx, menu, depth):
+    """Level-synchronous BFS over histories; the transitions of one level are spread over the
+    workers, the parent merges states by canonical form (deterministic, independent of the seed)."""
+    root = ctx.pmap(shard_history, [[((), None)], [((), None)]])[0]   # two shards: runs in workers
+    seen = {root[0][0]: ()}
+    frontier = [()]
+    transitions = 0
+    per_depth = [1]
+    for d in range(depth):
+        tasks = [(h, op) for h in frontier for op in menu]
+        chunks = [c for c in split(tasks, 64) if c]
+        res = ctx.pmap(shard_history, chunks)
+        flat = {}
+        for chunk, r in zip(chunks, res):
+            for (h, op), cb in zip(chunk, r):
+                flat[(h, tuple(op))] = cb
+        new = []
+        for h in frontier:
+            for op in menu:
+                canon, bad = flat[(h, tuple(op))]
+                transitions += 1
+                if bad or canon in seen:
+                    continue
+                nh = h + (tuple(op),)
+                seen[canon] = nh
+                new.append(nh)
+        per_depth.append(len(new))
+        frontier = new
+        if not frontier:
+            break
+    return len(seen), transitions, per_depth, [list(map(list, h)) for h in list(seen.values())[-2:]]
+
+
+def fresh_interpreter_history(hist):
+    """Run one history in a genuinely fresh interpreter (no reload involved); None or a detail."""
+    import json
+    import os
+    import subprocess
+    import sys
+    from ..core import REPO, VERIF
+    code = ("import sys, json; sys.path.insert(0, %r); sys.path.insert(1, %r); "
+            "from mc.checks import c14; "
+            "print('RESULT ' + json.dumps(c14._fresh_entry(json.loads(sys.argv[1]))))" % (REPO, VERIF))
+    env = dict(os.environ, PYTHONHASHSEED="0", PYTHONDONTWRITEBYTECODE="1")
+    p = subprocess.run([sys.executable, "-B", "-c", code, json.dumps(hist)], env=env,
+                       capture_output=True, text=True)
+    for line in p.stdout.splitlines():
+        if line.startswith("RESULT "):
+            return json.loads(line[7:])
+    raise RuntimeError("fresh interpreter gave no result:\n" + p.stdout[-1000:] + p.stderr[-2000:])
+
+
+def _fresh_entry(hist):
+    from ..core import jsonable
+    _, fail = run_history(hist, reset=False)
+    return None if fail is None else jsonable({"failed_step": [fail[0], hist[fail[0]]], **fail[1]})
+
+
+def shard_fresh(shard):
+    part = Partial()
+    for hist in shard:
+        bad = fresh_interpreter_history(hist)
+        if bad is not None:
+            part.violation("history_fresh", {"history": hist, "fresh_interpreter": True}, bad)
+        part.add(1, 1)
+        part.bump("fresh_interpreter_histories", 1)
+    return part
+
+
+# --------------------------------------------------------------------------------------------
 # run
 # --------------------------------------------------------------------------------------------
 
@@ -864,6 +1207,40 @@ def run(ctx, only=None):
         ctx.bounds["interleave"] = "w of length 1..%d, all ordered pairs (u1, u2) of length 1..2" % (3 if quick else 4)
         ctx.section("interleave", evaluations=ctx.evals - e0)
 
+    if want("history"):
+        e0 = ctx.evals
+        lengths = (0, 1, 2, 3) if quick else (0, 1, 2, 3, 4)
+        depth = 4
+        for op in DIRECT_OPS:
+            if op[0] == "pair" and F.geometric_occurrences(op[1], op[2]) != F.letter_occurrences(op[1], op[2], False):
+                raise RuntimeError("history menu: pair %r sits on the known finding" % (op,))
+        menu = table_ops(lengths) + DIRECT_OPS
+        st, tr, per_depth, sample = explore_histories(ctx, menu, depth)
+        ctx.states, ctx.transitions, ctx.traces = st, tr, tr
+        ctx.bump("history_states", st)
+        ctx.bump("history_transitions", tr)
+        for h in sample:
+            ctx.sample({"sub": "history", "history": h}, cap=12)
+        # the same kind of history in genuinely fresh interpreters (no reload involved)
+        dec = [op for op in DIRECT_OPS if op[0] == "decode" and op[1]]
+        tabs = table_ops([l for l in lengths if l >= 1])
+        hs = [[a, b] for a in dec for b in tabs]
+        if not quick:
+            hs += [[b, a] for a in DIRECT_OPS for b in tabs] + \
+                  [[a, b] for a in DIRECT_OPS if a not in dec for b in tabs]
+        ctx.pmap(shard_fresh, [c for c in split(hs, 32) if c])
+        ctx.bounds["history"] = {
+            "menu": menu, "depth": depth, "states_per_depth": per_depth,
+            "reset": "importlib.reload of pinword_util and pin_words before every history",
+            "after_every_step": "the operation's own answer and every table built so far, in full",
+            "canonical_state": "contents of built tables, lru cache sizes, module/class level "
+                               "containers and instances, default arguments, closure cells",
+            "fresh_interpreter": "%d two-step histories, one interpreter each: (decode w, table op)%s"
+                                 % (len(hs), "" if quick else
+                                    ", (table op, any direct op), (any direct op, table op)")}
+        ctx.section("history", states=st, transitions=tr, per_depth=per_depth, fresh=len(hs),
+                    evaluations=ctx.evals - e0)
+
     # simplest case first in the report
     ctx.viols.sort(key=_case_size)
 
@@ -910,5 +1287,14 @@ def replay(ctx, rec):
                 ctx.violation("reflect", case, det)
     elif sub == "interleave":
         check_interleave(ctx, PW, case["w"], case["u1"], case["u2"])
+    elif sub == "history":
+        hist = case["history"]
+        _, fail = run_history(hist)
+        if fail is not None:
+            ctx.violation("history", case, dict(fail[1], failed_step=[fail[0], hist[fail[0]]]))
+    elif sub == "history_fresh":
+        bad = fresh_interpreter_history(case["history"])
+        if bad is not None:
+            ctx.violation("history_fresh", case, bad)
     else:
         raise ValueError("unknown sub-check %r" % sub)
